@@ -10,10 +10,10 @@ TARGETS = ["Init", "SetAttr", "DelAttr"]
 FAMILY_FILTER = ["c09.", "c05.value", "c05.others", "c05.noop", "c03.typed", "frame[", "call-pre.", ".noexc.", ".loop", "loop2.", ".cut."]
 SUBCHECKS = [("props._defaults", ["LookupDefault", "DefaultValue"])]
 ASSUMPTIONS = A_COMMON + [
-    "PHASE 1 of InitMethod.init (attributes owned by parent spec classes are routed through the parents' constructors: spec_cls.mro(), getattr on "
-    "classes, calls of arbitrary user-written parent __init__) is NOT verified: its effect is the declared cut assumption (the instance may have been "
-    "written arbitrarily; the keyword dict still holds what was passed for the attributes this class owns; class-level records untouched) - "
-    "exercised by the bounded stand-in",
+    "A-PARENT-CTOR: a parent class's constructor (generated or user-written: code outside this function) writes to the instance it is given and to nothing "
+    "else that existed before, never defines an instance-level __spec_class__, may raise; what it stores is exercised by the bounded stand-in",
+    "A-MRO: cls.mro() is a list of classes starting with cls, which does not occur in it again; A-META for the ancestors: an ancestor's metadata is a "
+    "well-formed record whose attributes all occur in the instance's metadata",
     "scope: no overflow attribute (init_overflow_attr is None: the overflow branch calls a dynamically named helper); the slot-level clauses are "
     "stated for classes without __post_init__ (a pure callback in the model); 'exactly once, after all attributes are set' is proved on the ghost call log",
     "the generated __init__ signature (key positional / required, keyword-only attributes, **kwargs only with an overflow attribute) is produced by "
@@ -22,7 +22,9 @@ ASSUMPTIONS = A_COMMON + [
     "default DV / NODEF *defined* by the walk of the statement (first class along the MRO that owns the record or defines the name); left assumed there: the "
     "MRO itself (cls.mro()), class namespaces (cdict), inspect.isdatadescriptor, A-CTOR for default_factory(); prepare_attr_value an assumed pure function",
 ]
-EXPLANATION = ("phases 2 and 3 of InitMethod.init are symbolically executed from the current source (loop invariant over the attrs dict): every "
+EXPLANATION = ("all three phases of InitMethod.init are symbolically executed from the current source. Phase 1 (nested loops over the ancestors and "
+               "their attributes): only attributes owned by an ancestor are taken out of the keyword dict and handed - copied - to that ancestor's "
+               "constructor, so the keyword dict keeps exactly what was passed for the attributes this class owns. Phases 2-3 (loop invariant over the attrs dict): every "
                "init-enabled attribute owned by the class receives the prepared keyword value - protectively copied unless do_not_copy - if one was "
                "given, otherwise the default Attr.lookup_default_value(type(self)) yields, otherwise it is left missing; no other slot is written; "
                "__post_init__ is called exactly once after the loop; the initializing flag is removed")
@@ -31,7 +33,7 @@ EXPLANATION = ("phases 2 and 3 of InitMethod.init are symbolically executed from
 def extra_checks(ft, tier, seed):
     out = [harness.codecheck(["spec_classes.methods.core:InitMethod.init"])]
     out.append(harness.standin("standin.hierarchies", "bounded/c09.py", ["--standin", "-", os.path.join(harness.VERIF, "replays", PROPERTY)],
-                               "phase 1 (parent constructors, user-written ones included), generated signature (key positional, unknown keywords), overflow attribute",
+                               "what parent constructors (user-written ones included) store on the instance, generated signature (key positional, unknown keywords), overflow attribute",
                                "5 class hierarchies x every subset of keyword arguments + signature / overflow probes (42 constructions)"))
     return out
 
